@@ -232,6 +232,9 @@ class Run:
         case : JSON-able witness (inputs, observed, expected)
         """
         key = str(key).replace(" ", "_")
+        if isinstance(case, dict):
+            # what a replay needs to rebuild this shard's deterministic generators
+            case = dict(case, _subseed=self.subseed, _shard=list(self.shard), _tier=self.tier)
         v = self.violations.setdefault(key, {"what": what, "count": 0, "witnesses": []})
         v["count"] += 1
         if len(v["witnesses"]) < MAX_WITNESS_PER_KEY:
